@@ -151,7 +151,7 @@ func cmdCheck(args []string) (code int) {
 			r := report.NewRun(id, *tier, seed)
 			r.Start = t0
 			r.Decides, r.NotDecided = ck.Decides, ck.NotDecided
-			r.Trusted = []string{"go/packages, go/types, go/ssa (golang.org/x/tools v0.50.0) and the go1.26.8 front end", "the obligation tables in /verif/checker/internal/props (derived from the property statements)",
+			r.Trusted = []string{"go/packages, go/types, go/ssa (golang.org/x/tools v0.50.0) and the go1.26.8 front end", "the obligation tables in /verif/checker/internal/props (derived from the property statements)", "the normalisation pass of internal/ir (semantics-preserving source-level inlining of call-only closures and of helpers newer than the rules; re-type-checked)",
 				"third-party code reached from nexus (gorilla/websocket, ugorji codec, deque, x/crypto) and user-supplied callbacks carry no obligations"}
 			r.Assume = []string{"default build configuration (linux/amd64, no build tags); thorough tier adds GOARCH=386",
 				"a structural necessary condition is decided, not the behavioural property: passing does not prove the property",
